@@ -265,7 +265,15 @@ def _pick(su, body, td, nact, s0, a0, s1, a1, s2, a2, existing, mf, tier_kinds):
         v["a%d" % j] = a
     # the initial state of the attribute only matters when something patches it
     has_patch = any(decode_action(v["a%d" % j], kinds)[0] == "patch" for j in range(v["nact"]))
-    v["existing"] = ch.sel("existing", existing, 5) if has_patch else 1
+    # absent / present for every program; the rarer kinds of attribute (None-valued, __slots__, property) for
+    # programs with at most two actions of which exactly one is a patch
+    n_patch = sum(1 for j in range(v["nact"]) if decode_action(v["a%d" % j], kinds)[0] == "patch")
+    if not has_patch:
+        v["existing"] = 1
+    elif n_patch == 1 and left[0] >= 1:
+        v["existing"] = ch.sel("existing", existing, 5)
+    else:
+        v["existing"] = ch.sel("existing", existing, 2)
     return v, kinds
 
 
